@@ -381,3 +381,6 @@ package pickle
 //@   ensures  n_decode == old(n_decode) + 1 && decode_failed == (result.1 != nil)
 //@   modifies heap, ipos, n_decode, decode_failed
 
+
+//@ func pickle.NewEncoder
+//@   ensures result != nil && result.memo != nil && result.inProgress != nil
